@@ -233,6 +233,19 @@ def mutants(rng, b, tier):
                 hh = copy.deepcopy(h)
                 hh.chunks[k] = (dg, ud, cl + d, ul + d)
                 emit("both%d%+d" % (k, d), hh, body)
+        # boundary values of the declared sizes (the stored bytes and their digest stay)
+        for nul in (0, 1):
+            if ul != nul:
+                hh = copy.deepcopy(h)
+                hh.chunks[k] = (dg, ud, cl, nul)
+                emit("ulen%d=%d" % (k, nul), hh, body)
+        if cl != 0:
+            hh = copy.deepcopy(h)
+            hh.chunks[k] = (dg, ud, 0, ul)
+            emit("clen%d=0" % k, hh, body)
+            hh = copy.deepcopy(h)
+            hh.chunks[k] = (dg, ud, 0, 0)
+            emit("both%d=0" % k, hh, body)
         hh = copy.deepcopy(h)
         x = bytearray(dg)
         x[rng.randrange(len(x))] ^= 1 << rng.randrange(8)
